@@ -3,8 +3,8 @@ arguments of the analysis entry points.  Pure numpy, no dclab import.  Every obj
 function of the numpy Generator handed in (derived from (seed, property, salt, index))."""
 import numpy as np
 
-FEATURES = ["area_um", "deform", "aspect", "bright_avg", "bright_sd", "fl1_max", "fl2_max", "fl1_pos",
-            "pos_x", "pos_y", "size_x", "time", "circ", "tilt", "userdef1", "area_ratio",
+FEATURES = ["area_um", "deform", "aspect", "bright_avg", "bright_sd", "fl1_max", "fl2_max",
+            "fl1_pos", "pos_x", "pos_y", "size_x", "time", "circ", "tilt", "userdef1", "area_ratio",
             "inert_ratio_cvx"]
 
 COL_SHAPES = ["lognormal", "uniform", "normal0", "negative", "ties_int", "ties_int_neg",
@@ -110,7 +110,8 @@ def gen_columns(rng, n, n_feats=None, fl_pair=False):
     feats = [str(f) for f in rng.choice(FEATURES, k, replace=False)]
     if rng.random() < 0.1 or fl_pair:
         # a fluorescence pair (stored as unsigned integers in .rtdc files)
-        feats = ["fl1_max", "fl2_max"] + [f for f in feats if f not in ("fl1_max", "fl2_max")][:k - 2]
+        feats = ["fl1_max", "fl2_max"] + [f for f in feats
+                                          if f not in ("fl1_max", "fl2_max")][:k - 2]
     cols, shapes = {}, {}
     for f in feats:
         shape = str(rng.choice(COL_SHAPES, p=COL_P))
